@@ -6,6 +6,9 @@ rows = []
 for f in sorted(glob.glob(os.path.join(ROOT, "seeded", "*", "*", "meta.json"))):
     m = json.load(open(f))
     prop = f.split(os.sep)[-3]; name = f.split(os.sep)[-2]
+    if prop.startswith("benign"):
+        rows.append((prop, name, (m.get("summary") or "")[:110].replace("|", "/"), "(behaviour preserving)", (m.get("verdict") or "")[:160].replace("|", "/")))
+        continue
     caught = []
     for p, v in (m.get("checks") or {}).items():
         if v.get("exit") == 1 and v.get("violations"):
